@@ -294,7 +294,8 @@ namespace Slt
 /-! ### the parallel driver as a labelled transition system
 
 `run_parallel` (main.rs 382-523) + `connect_and_run_test_file` (669-736): databases are created
-up front, at most `jobs` files are in flight (`buffer_unordered`), a file opens sessions lazily
+up front, at most `jobs` files are in flight (`buffer_unordered`; each is its own tokio task, so a
+file started before the cancellation may look at the flag only after it), a file opens sessions lazily
 (one per connection name), `runner.shutdown` closes them on every exit path, a failure under
 fail-fast / a refused connection / Ctrl-C sets the cancellation flag, a file started after that
 is skipped without a session (it first waits for the running ones), databases are dropped at the
@@ -314,6 +315,8 @@ structure DSt where
   toCreate : List Str                      -- databases still to be created, in order
   pending : List Nat                       -- indices of files not yet started, in order
   inflight : List (Nat × List Nat) := []   -- started files with their open sessions
+  begun : List Nat := []                   -- files that have opened a session (they passed the
+                                           -- `is_cancelled()` test and hold `RUNNING_TESTS.read()`)
   results : List (Nat × FileResult) := []
   cancelled : Bool := false
   refused : Bool := false
@@ -334,6 +337,9 @@ inductive DLabel
   | openSession (i : Nat)                   -- file i opens a session (first use of a connection name)
   | sql (i : Nat) (s : Nat) (text : Str)    -- file i sends `text` (one of its own lines) on session s
   | finish (i : Nat) (res : FileResult) (refused : Bool)   -- file i ends: sessions closed, result processed
+  | closeSession (i : Nat) (k : Nat)        -- file i's runner shuts down: its session k is closed (the
+                                            -- engine processes see end-of-file one after the other,
+                                            -- interleaved with what the other files do)
   | signal                                  -- Ctrl-C
   | beginDrop
   | drop                                    -- next `DROP DATABASE` (kept ones are skipped)
@@ -377,6 +383,7 @@ def dstep (c : DCfg) (s : DSt) : DLabel → Option DSt
     | .running, some ss, some f =>
       if s.cancelled then none      -- `select!` is biased towards the cancellation branch
       else some { s with inflight := setSessions s.inflight i (ss ++ [s.nextSess]),
+                         begun := i :: s.begun,
                          nextSess := s.nextSess + 1,
                          log := s.log ++ [.connect s.nextSess f.db] }
     | _, _, _ => none
@@ -390,8 +397,12 @@ def dstep (c : DCfg) (s : DSt) : DLabel → Option DSt
   | .finish i res refused =>
     match s.phase, sessionsOf s.inflight i with
     | .running, some ss =>
-      -- a cancelled result only under cancellation; skipped results come from `start`
-      if res = .skipped ∨ (res = .cancelled ∧ !s.cancelled) ∨ (refused ∧ res ≠ .err) then none
+      -- a cancelled result only under cancellation.  A file that occupies a slot (its task is spawned)
+      -- but finds the flag set when it first looks (`cancel.is_cancelled()`, main.rs 684) is skipped
+      -- too: it has opened no session, and it first waits until no running file is left
+      -- (`RUNNING_TESTS.write()`), i.e. until no file in flight has an open session
+      if (res = .skipped ∧ (!s.cancelled ∨ s.begun.contains i ∨ s.inflight.any (fun p => !p.2.isEmpty)))
+          ∨ (res = .cancelled ∧ !s.cancelled) ∨ (refused ∧ res ≠ .err) then none
       else
         let cancel := s.cancelled || (res == .err && (c.failFast || refused))
         some { s with inflight := s.inflight.filter (fun p => p.1 ≠ i),
@@ -399,6 +410,13 @@ def dstep (c : DCfg) (s : DSt) : DLabel → Option DSt
                       cancelled := cancel,
                       refused := s.refused || refused,
                       log := s.log ++ ss.map CEv.eof }
+    | _, _ => none
+  | .closeSession i k =>
+    match s.phase, sessionsOf s.inflight i with
+    | .running, some ss =>
+      if !ss.contains k then none
+      else some { s with inflight := setSessions s.inflight i (ss.filter (fun x => x ≠ k)),
+                         log := s.log ++ [.eof k] }
     | _, _ => none
   | .signal =>
     if s.phase = .running ∧ !s.cancelled then some { s with cancelled := true, log := s.log ++ [.cancel] }
